@@ -1265,7 +1265,9 @@ def _in_distance(val1, val2) -> float:
     """
     # TODO(fk) Check only if collection size is within some range,
     #  otherwise the check might take very long.
-    if not isinstance(val2, _INSPECTABLE_COLLECTIONS):
+    # Exactly these types: a subclass may override `__iter__` with code of the module
+    # under test, which the membership test (`list.__contains__`, ...) does not run.
+    if type(val2) not in _INSPECTABLE_COLLECTIONS:
         return inf
 
     # Use the shortest distance to any element of the collection.
@@ -1896,11 +1898,13 @@ class ExecutionTracer(AbstractExecutionTracer):  # noqa: PLR0904
         if attribute in {"__getattr__", "__getitem__"}:
             return -1
         # Check if the dictionary of the object on which lookup is performed
-        if (
-            hasattr(object_type, "__dict__")
-            and object_type.__dict__
-            and attribute in object_type.__dict__
-        ):
+        # An object without `__dict__` (`__slots__`) would pass the question on to a
+        # `__getattr__` of the module under test, so the object is not asked via `hasattr`.
+        try:
+            instance_dict = object.__getattribute__(object_type, "__dict__")
+        except AttributeError:
+            instance_dict = None
+        if instance_dict and attribute in instance_dict:
             return id(object_type)
         # `__slots__` is looked up on the class: asking the object for it would call a
         # `__getattr__` of the module under test.
